@@ -137,9 +137,19 @@ def run_case(case: dict) -> dict:
                 pass
             ev.append({"e": "inject", "id": op["id"], "d": list(op["d"]), "ts": op["ts"], "cons": cons_proj()})
         elif o == "read":
-            e = {"e": "read", "k": op["k"], "i": op["i"], "ok": True}
+            how = op.get("how", "slot")
+            k, i = op["k"], op["i"]
+            if how.startswith("node_"):
+                k = 1           # node-level lookups find the first map that holds the object
+            e = {"e": "read", "k": k, "i": i, "ok": True, "how": how}
             try:
-                e["v"] = tv(cmaps[op["k"] - 1][op["i"] - 1].raw)
+                pm, idx = cmaps[k - 1], 0x2000 + i - 1
+                var = {"slot": lambda: pm[i - 1], "index": lambda: pm[idx], "name": lambda: pm[f"Obj{i - 1}"],
+                       "hex": lambda: pm[f"{idx:X}"], "mapno": lambda: consn.tpdo[k][i - 1],
+                       "mapidx": lambda: consn.pdo[0x1A00 + k - 1][i - 1],
+                       "node_name": lambda: consn.tpdo[f"Obj{i - 1}"], "node_index": lambda: consn.tpdo[idx],
+                       "node_pdo": lambda: consn.pdo[f"Obj{i - 1}"]}[how]()
+                e["v"] = tv(var.raw)
             except Exception as exc:  # noqa
                 e["ok"], e["v"], e["repr"] = False, {"k": "none"}, repr(exc)[:100]
             ev.append(e)
